@@ -13,12 +13,19 @@ Definition ritem_render (it : ritem) : bytes :=
 Definition no_uni (s : bytes) : bool := negb (existsb uni_lead s).
 Definition no_nl (s : bytes) : bool := negb (existsb (fun c => Ascii.eqb c (nb 10)) s).
 Definition last_ok (s : bytes) : bool := match rev s with c :: _ => negb (is_sp c) | [] => true end.
+(* an argument is the rest of the line without the white space around it: it neither starts nor
+   ends with a white-space character -- ASCII, or one of the multi-byte Unicode spaces that
+   strings.TrimSpace takes off.  INSIDE it any bytes may stand (runs of blanks, tabs, \v \f \r,
+   NBSP, NEL, EM SPACE ...): they belong to the value. *)
+Definition val_edges_ok (v : bytes) : bool :=
+  match strip_one_prefix uni_spaces v with None => true | Some _ => false end
+  && match strip_one_prefix (map (@rev ascii) uni_spaces) (rev v) with None => true | Some _ => false end.
 Definition rline_ok (l : rline) : bool :=
   forallb is_blank (q_lead l) && forallb is_blank (q_sep l) && forallb is_blank (q_trail l)
   && match q_key l with [] => false | _ => true end
   && forallb (fun c => negb (is_sp c)) (q_key l) && no_uni (q_key l)
   && negb (is_comment (q_key l))
-  && no_uni (q_val l) && no_nl (q_val l) && last_ok (q_val l)
+  && val_edges_ok (q_val l) && no_nl (q_val l) && last_ok (q_val l)
   && match q_val l with
      | [] => true
      | c :: _ => negb (is_sp c) && match q_sep l with [] => false | _ => true end
